@@ -519,8 +519,12 @@ class TreeCheck(Check):
         # the same table created thread-safe (single-threaded use must not differ: error reports, errno)
         ts = [o.replace("new 0", "new 10") for o in self.nulldata_ops(faults=True) + self.fault_walk_ops(False)[:400]]
         sts.append(Stream("threadsafe-option", ts, history=True))
+        if "shape" in self.aspects:
+            sts.append(Stream("big-tree", ["bigtree"], history=False, nomodel=True,
+                              note="self-checking pass: 850000 keys in an order that makes the spine below the root's right child as "
+                                   "long as the balance invariant allows, removal of the key above it and of every 997th key"))
         if self.tier != "quick":
-            sts.append(Stream("huge", ["hugetree 2147483649", "hugetree 4294967312", "bigtree"], history=False, nomodel=True,
+            sts.append(Stream("huge", ["hugetree 2147483649", "hugetree 4294967312"], history=False, nomodel=True,
                               note="self-checking passes over a private table with one value and one key of 2^31+1 / 2^32+16 bytes: "
                                    "sizes reported by get / getnext / find_nearest, replacement, removal, order of the 1-byte prefix key"))
         sts.append(Stream("null-data-values", self.nulldata_ops(), history=True))
